@@ -292,7 +292,7 @@ Print Assumptions c15_include_fix_conservative_on_trees.
 Theorem c15_no_panic_alpine_version : forall matched, Returns (alpine_version_skel matched).
 Proof. exact alpine_version_skel_returns. Qed.
 Print Assumptions c15_no_panic_alpine_version.
-Theorem c15_no_panic_fetch_offline : forall n, Returns (fetch_offline_skel n).
+Theorem c15_no_panic_fetch_offline : forall names, Returns (fetch_offline_skel names).
 Proof. exact fetch_offline_skel_returns. Qed.
 Print Assumptions c15_no_panic_fetch_offline.
 Theorem c15_no_panic_etag : forall present vals, Returns (etag_skel present vals).
@@ -335,7 +335,7 @@ Proof. exists "repo"%string. exact repo_abbr_no_slash_panics. Qed.
 Print Assumptions c15_repo_abbr_refuted.
 Theorem c15_sites_pinned_2 :
   (alpine_version_sites, alpine_version_len_guards, alpine_repo_groups) = (["_[1]"], ["len(_) < 2"], 1%nat)%string /\
-  (fetch_offline_sites, fetch_offline_len_guards) = (["_[0]"; "_[1:]"], ["len(_) == 0"])%string /\
+  (fetch_offline_sites, fetch_offline_len_guards) = ([], []) /\   (* since fix c5d0145 fetchOffline indexes nothing *)
   (etag_sites, etag_len_guards) = (["_[0]"; "_[0]"], ["len(_) == 0"])%string /\
   (resolve_apk_sites, resolve_apk_len_guards) = (["_[0]"; "_[0]"; "_[1]"; "_[1]"; "_[2]"; "_[:]"], ["len(_) < 2"; "len(_) == 3"])%string /\
   (control_value_sites, control_value_len_guards) = (["_[0]"; "_[1]"], ["len(_) != 2"])%string /\
